@@ -51,6 +51,9 @@ var _ Backend = &LocalBackend{}
 func (s *LocalBackend) Upload(ctx context.Context, key string, data []byte, opts *UploadOptions) (err error) {
 	defer prometheus.NewTimer(s.duration.WithLabelValues("upload")).ObserveDuration()
 	name, err := filepath.Localize(key)
+	if err == nil && name == "." {
+		err = errors.New("key refers to the backend directory itself")
+	}
 	if err != nil {
 		return fmtErrorf("failed to localize key %q as a filesystem path: %w", key, err)
 	}
@@ -92,6 +95,9 @@ func (s *LocalBackend) Upload(ctx context.Context, key string, data []byte, opts
 func (s *LocalBackend) Fetch(ctx context.Context, key string) ([]byte, error) {
 	defer prometheus.NewTimer(s.duration.WithLabelValues("fetch")).ObserveDuration()
 	name, err := filepath.Localize(key)
+	if err == nil && name == "." {
+		err = errors.New("key refers to the backend directory itself")
+	}
 	if err != nil {
 		return nil, fmtErrorf("failed to localize key %q as a filesystem path: %w", key, err)
 	}
@@ -103,6 +109,9 @@ func (s *LocalBackend) Fetch(ctx context.Context, key string) ([]byte, error) {
 func (s *LocalBackend) Discard(ctx context.Context, key string) error {
 	defer prometheus.NewTimer(s.duration.WithLabelValues("discard")).ObserveDuration()
 	name, err := filepath.Localize(key)
+	if err == nil && name == "." {
+		err = errors.New("key refers to the backend directory itself")
+	}
 	if err != nil {
 		return fmtErrorf("failed to localize key %q as a filesystem path: %w", key, err)
 	}
